@@ -257,3 +257,42 @@ def _(u):
 @unit("eval.multistart_augment", file=EV, func="GreedyMultiStartAugmentEval._inner", props=("C15", "C12"))
 def _(u):
     _eval_inner(u, "GreedyMultiStartAugmentEval", "both")
+
+
+@unit("eval.base.call", file=EV, func="EvalBase.__call__", props=("C15",))
+def _(u):
+    # two loader batches of different sizes whose action sequences have different lengths: rewards and actions are
+    # concatenated in loader order, the shorter sequences padded with zeros at the END
+    B1, B2, T1, T2 = u.dims("B1 B2 T1 T2")
+    u.requires(T1 >= T2)          # (the symmetric case is the same code path with the roles swapped)
+    a1, a2 = u.tensor("actions1", (B1, T1), "i"), u.tensor("actions2", (B2, T2), "i")
+    r1, r2 = u.tensor("rewards1", (B1,), "f"), u.tensor("rewards2", (B2,), "f")
+    td1 = SymTD({"locs": u.tensor("locs1", (B1, 3, 2), "f")}, (B1,))
+    td2 = SymTD({"locs": u.tensor("locs2", (B2, 3, 2), "f")}, (B2,))
+    seen = []
+
+    def inner(policy, td, **kw):
+        seen.append(td)
+        return (a1, r1) if len(seen) == 1 else (a2, r2)
+
+    class _Tqdm:
+        def __call__(self, it, **kw):
+            return it
+
+        def write(self, s):
+            return None
+
+    policy = u.ns(parameters=lambda: iter([u.ns(device="dev")]))
+    ev = u.obj(EV, "EvalBase", env=u.ns(reset=lambda td: td), progress=False, name="base", _inner=inner)
+    u.stub(tqdm=_Tqdm(), time=u.ns(time=lambda: 0.0))
+    out = u.run(EV, "EvalBase.__call__", policy, [td1, td2], selfobj=ev, record=False)
+    b1, b2 = u.idx((B1,), "b1"), u.idx((B2,), "b2")
+    t1, t2, tp = u.idx((T1,), "t1"), u.idx((T2,), "t2"), u.idx(((T2, T1),), "tp")
+    u.prove("evalcall.batches-in-loader-order", len(seen) == 2 and seen[0] is td1 and seen[1] is td2)
+    same_tensor(u, "evalcall.rewards.shape", out["rewards"], (B1 + B2,), lambda r: out["rewards"].at(r))
+    u.prove("evalcall.rewards.concatenated", AND(out["rewards"].at(b1) == r1.at(b1), out["rewards"].at(B1 + b2) == r2.at(b2)))
+    same_tensor(u, "evalcall.actions.shape", out["actions"], (B1 + B2, T1), lambda r, t: out["actions"].at(r, t))
+    u.prove("evalcall.actions.first-batch", out["actions"].at(b1, t1) == a1.at(b1, t1))
+    u.prove("evalcall.actions.second-batch", out["actions"].at(B1 + b2, t2) == a2.at(b2, t2))
+    u.prove("evalcall.actions.padding-is-zero-at-the-end", out["actions"].at(B1 + b2, tp) == 0)
+    u.canary("evalcall.rewards.reversed", out["rewards"].at(b2) == r2.at(b2))
